@@ -33,6 +33,9 @@ def run(ctx):
                    'position that cannot be None', 25)
     ctx.rule('R05d', 'line and column are filled in from the error\'s own position on the way out '
                      '(shared with C20 R20a)', 2)
+    ctx.rule('R05f', 'the lookup tables cached on a parsing state are reused from the parent only when '
+                     'no field they depend on changed, and both arms assign the same tables (C17 P2/P4): a '
+                     'stale table makes tokenizing fail with TypeError/KeyError instead of a parse error', 4)
     ctx.rule('R05e', 'unbalanced input is rejected: each closing token kind reaching the dispatcher '
                      'raises a parse error before any node is produced; delimited constructs require '
                      'their closing predicate (kind and closer) and an unmet required stop condition '
@@ -71,6 +74,12 @@ def run(ctx):
     sub = _Sub(ctx, 'R05d')
     w = repo.mod(WALKER)
     _r20a_only(sub, repo, w)
+
+    # ------------------------------------------------------------ R05f
+    # a parsing state whose cached delimiter tables are stale makes the token reader fail with
+    # TypeError/KeyError (not a parse error) on nested math: C17's cache rules are necessary here
+    from . import c17
+    c17.run(_filtered(_Sub(ctx, 'R05f'), ('P2', 'P4')))
 
     # ------------------------------------------------------------ R05e
     co = repo.mod(COLL)
@@ -218,6 +227,25 @@ class _Sub(object):
 
     def assume(self, *a):
         return None
+
+
+def _filtered(sub, keep):
+    class Filter(_Sub):
+        def _keep(self, rule):
+            return rule in keep
+
+        def holds(self, rule, *a, **k):
+            return self.ctx.holds(self._rule, *a, **k) if self._keep(rule) else None
+
+        def refuted(self, rule, *a, **k):
+            return self.ctx.refuted(self._rule, *a, **k) if self._keep(rule) else None
+
+        def unknown(self, rule, *a, **k):
+            return self.ctx.unknown(self._rule, *a, **k) if self._keep(rule) else None
+
+        def decide(self, rule, *a, **k):
+            return self.ctx.decide(self._rule, *a, **k) if self._keep(rule) else None
+    return Filter(sub.ctx, sub._rule)
 
 
 def _r20a_only(sub, repo, w):
